@@ -210,4 +210,16 @@ def getFonts (mk : RawFontDict → Except String Font) (doc : Nat → RawFontDic
     let r := getFont mk m i (doc i)
     r.1 :: getFonts mk doc r.2 rest
 
+/-- `PDFPageInterpreter.init_resources`, the `Font` branch: for every entry of the resource dictionary
+`objid = None` (here `0`), replaced by the object id when the entry is an indirect reference (`some id`);
+then `get_font(objid, spec)`.  `none` = a font dictionary written directly into the resource dictionary. -/
+def initFonts (mk : RawFontDict → Except String Font) :
+    RsrcMgr → List (Option Nat × RawFontDict) → List (Except String Font) × RsrcMgr
+  | m, [] => ([], m)
+  | m, (ref, spec) :: rest =>
+    let r := getFont mk m (ref.getD 0) spec
+    let rr := initFonts mk r.2 rest
+    (r.1 :: rr.1, rr.2)
+
+
 end PdfVerif.SimpleFont
